@@ -83,6 +83,11 @@ def _program(draw):
         if j != i and "sig0" not in nodes[j].get("emit", []):
             nodes[j] = {**nodes[j], "wait_for": ["sig0"]}
         labels.add("cached_emit")
+    # functions whose code carries two literal constants (a twin with the constants in swapped roles is another definition)
+    for i, n in enumerate(nodes):
+        if n["k"] == "func" and n.get("cache") and "fid" not in n and not any(m.get("fid") == n["name"] for m in nodes) and prob(draw, 0.3):
+            nodes[i] = {**n, "consts": [n["name"] + "_p", n["name"] + "_q"]}
+            labels.add("literal_constants")
     # gates
     funcs = [n["name"] for n in base]
     names = sorted({p for n in base for p in n["params"]} | {o for n in base for o in n["outs"]})
@@ -116,7 +121,7 @@ def _case(draw, tier):
     nruns = draw(st.integers(2, 8))
     # an alternative program sharing the cache: one cached node re-declared with permuted outputs / swapped inputs / swapped targets
     alt = None
-    cands = [n for n in nodes if n.get("cache") and (len(n.get("outs", [])) >= 2 or len(n.get("params", [])) >= 2 or n["k"] == "ifelse")]
+    cands = [n for n in nodes if n.get("cache") and (len(n.get("outs", [])) >= 2 or len(n.get("params", [])) >= 2 or n["k"] == "ifelse" or (n.get("emit") and n["k"] == "func") or n.get("consts"))]
     if cands and prob(draw, 0.6):
         a = draw(st.sampled_from(cands))
         opts = []
@@ -126,6 +131,10 @@ def _case(draw, tier):
             opts.append("swap_inputs")
         if a["k"] == "ifelse":
             opts.append("swap_targets")
+        if a.get("emit") and a["k"] == "func":
+            opts += ["rename_emit", "rename_emit_with_outputs"]
+        if a.get("consts"):
+            opts += ["permute_consts", "permute_consts"]
         if opts:
             alt = {"node": a["name"], "how": draw(st.sampled_from(opts))}
     history = [{"variant": draw(st.integers(0, 3)), "runner": draw(st.sampled_from(["sync", "async"])), "alt": alt is not None and draw(st.booleans())} for _ in range(nruns)]
@@ -253,8 +262,14 @@ class AsyncTraceRecorder(AsyncRecorder):
 
 def _alt_nodes(nodes, alt):
     out = []
+    emit_map = {}
+    if alt["how"].startswith("rename_emit"):
+        src = next(n for n in nodes if n["name"] == alt["node"])
+        emit_map = {e: e + "_r" for e in src.get("emit", [])}
     for n in nodes:
         if n["name"] != alt["node"]:
+            if emit_map and any(w in emit_map for w in n.get("wait_for", [])):
+                n = {**n, "wait_for": [emit_map.get(w, w) for w in n["wait_for"]]}  # waiters follow the renamed signal
             out.append(n)
             continue
         m = dict(n)
@@ -263,6 +278,13 @@ def _alt_nodes(nodes, alt):
         elif alt["how"] == "swap_inputs":
             p, q = n["params"][0], n["params"][1]
             m["rename_inputs"] = {p: q, q: p}
+        elif alt["how"] == "permute_consts":
+            m["consts"] = list(reversed(n["consts"]))  # ANOTHER function: same code shape, the two constants in swapped roles
+            m["fid"] = n["name"] + "~pc"
+        elif alt["how"] == "rename_emit":
+            m["emit"] = [emit_map[e] for e in n["emit"]]  # re-declared with another signal name
+        elif alt["how"] == "rename_emit_with_outputs":
+            m["renames"] = list(n.get("renames", [])) + [{"kind": "outputs", "map": dict(emit_map)}]  # same declaration, signal renamed afterwards
         elif alt["how"] == "swap_targets":
             m["t"], m["f"] = n["f"], n["t"]
             if m["t"] == "END":  # keep it constructible: when_true may be END, that is fine
@@ -307,7 +329,11 @@ def _summary(events):
 
 def _ident(n):
     """What may legitimately share a cache entry: same function, same output names, same gate targets."""
-    return (ref.fid(n), tuple(n.get("outs", []) + n.get("emit", [])), (n.get("t"), n.get("f")) if n["k"] == "ifelse" else None)
+    names = list(n.get("outs", []) + n.get("emit", []))
+    for st_ in n.get("renames", []):
+        if st_.get("kind") == "outputs":
+            names = [st_["map"].get(x, x) for x in names]
+    return (ref.fid(n), tuple(names), (n.get("t"), n.get("f")) if n["k"] == "ifelse" else None)
 
 
 def _positional_args(n, args_by_param):
@@ -695,6 +721,22 @@ def _rerun_and_check(gspec, nodes, vals, kw, work, out_u, key, node, how, dirkey
             raise Violation("c09.fault_served", f"[{how}] the damaged entry was served as a hit", how=how)
         if node is not None and ctx.count(ref.fid(node)) == 0:
             raise Violation("c09.fault_no_recompute", f"[{how}] node {node['name']} was not re-executed although its entry is damaged", how=how)
+        # the miss re-computed and re-stored the entry: one more run (new DiskCache on the directory) must be served from it
+        if node is not None and out.status == "completed" and any(t[0] == "set" and t[1] == key for t in trace):
+            trace3: list = []
+            ctx3 = Ctx(compact=True)
+            g3 = make_graph(ctx3, gspec, "sync")
+            b3 = LoggingBackend(DiskCache(work), trace3)
+            try:
+                out3 = run_sync(g3, vals, runner=SyncRunner(cache=b3), max_iterations=12, error_handling="continue", **kw)
+            finally:
+                b3.inner._cache.close()
+            if out3.status != out_u.status or out3.values != out_u.values:
+                raise Violation("c09.fault_not_healed", f"[{how}] the run after the repairing run gave {out3.brief()}, uncached {out_u.brief()}", how=how, what="values")
+            got3 = [t for t in trace3 if t[0] == "get" and t[1] == key]
+            if got3 and not got3[0][2]:
+                raise Violation("c09.fault_not_healed", f"[{how}] after a run that recomputed and re-stored the damaged entry of {node['name']}, the next run misses it again (the function is invoked on every run)", how=how, what="miss_again")
+            stats["healed_then_hit"] = stats.get("healed_then_hit", 0) + 1
     elif key is None:
         stats["corrupted_requested"] += 1
     # only authenticated bytes may reach pickle.loads
